@@ -1,9 +1,1872 @@
-//! stub — not built yet
+//! C09 — datagram sockets (udp / icmp / raw) preserve message boundaries, order and addressing.
+//!
+//! Explicit-state BFS (`core::bfs`) over the REAL `Interface` + ONE real socket of the kind
+//! under test, on `Medium::Ethernet` (neighbor resolution can be delayed: ARP / NDISC) and
+//! `Medium::Ip`, IPv4 and IPv6.  A state is the event history replayed on a fresh interface.
+//!
+//! Reference model: two FIFO queues of (metadata, bytes):
+//!   tx = accepted by `send*`, not yet seen on the device;
+//!   rx = delivered to the socket (as far as the PUBLIC api shows), not yet read.
+//! Oracle, evaluated after every event (see `on_frame`, `rx_observe`, `inbound`, `drain`):
+//!   tx-*   every frame on the device that carries a datagram of this socket's protocol is the
+//!          oldest not-yet-transmitted accepted datagram (entries that can NEVER be delivered
+//!          in this configuration - no route, malformed ICMP/IP packet - may be skipped),
+//!          byte-identical, right destination/source address+port, right next-hop MAC; a
+//!          failed `send*` queues nothing; a deliverable datagram never vanishes from the
+//!          socket's queue without a frame;
+//!   tx-liveness (event `Drain`: back-pressure lifted, pending neighbor request answered,
+//!          polls until `poll_at` is None / nothing happens any more) every deliverable
+//!          accepted datagram has appeared;
+//!   rx-*   a valid datagram for the bound endpoint is delivered exactly once, whole, with the
+//!          frame's source (and local address for udp) - a drop is tolerated only when the rx
+//!          queue is non-empty or the datagram exceeds the payload capacity; non-matching /
+//!          oversize datagrams are never queued; too small a user buffer gives `Truncated`
+//!          (the datagram is then discarded: documented for all three kinds), never short
+//!          data; `peek*` does not consume.
+//!
+//! Emitted frames are parsed by `dgram/frames.rs` + `wirecheck` (independent of
+//! `smoltcp::wire`); stimulus frames are built by the same independent code.
+
+mod frames;
+
 use crate::core::*;
-pub fn run(_tier: Tier) -> i32 {
-    eprintln!("harness not built yet");
-    2
+use crate::sim::*;
+use crate::wirecheck::{self as wc, Addr};
+use frames as fr;
+use serde_json::json;
+use smoltcp::iface::{Config, Interface, SocketHandle, SocketSet};
+use smoltcp::phy::{Device, DeviceCapabilities, Medium};
+use smoltcp::socket::{icmp, raw, udp};
+use smoltcp::time::Instant;
+use smoltcp::wire::{
+    EthernetAddress, HardwareAddress, IpAddress, IpCidr, IpEndpoint, IpListenEndpoint, IpProtocol,
+    IpVersion, Ipv4Address, Ipv6Address,
+};
+use std::collections::VecDeque;
+use std::sync::atomic::{AtomicBool, AtomicU64, Ordering};
+
+// ---------------------------------------------------------------------------------------
+// configuration
+// ---------------------------------------------------------------------------------------
+
+#[derive(Clone, Copy, PartialEq, Eq, Debug, Hash, PartialOrd, Ord)]
+pub enum Kind {
+    Udp,
+    Icmp,
+    Raw,
 }
-pub fn replay(_art: &serde_json::Value) -> i32 {
-    2
+impl Kind {
+    fn name(self) -> &'static str {
+        match self {
+            Kind::Udp => "udp",
+            Kind::Icmp => "icmp",
+            Kind::Raw => "raw",
+        }
+    }
+}
+
+/// Which part of the event alphabet is explored (all three are exhaustive BFS runs over their
+/// own alphabet; the focused ones reach deeper).
+#[derive(Clone, Copy, PartialEq, Eq, Debug, Hash, PartialOrd, Ord)]
+pub enum Phase {
+    /// the complete alphabet
+    Mix,
+    /// send*, poll, poll_egress, back-pressure, +1 s, neighbor reply, drain (udp: close, bind)
+    Tx,
+    /// inbound frames, recv*, peek* (udp: close, bind)
+    Rx,
+}
+impl Phase {
+    fn name(self) -> &'static str {
+        match self {
+            Phase::Mix => "mix",
+            Phase::Tx => "tx",
+            Phase::Rx => "rx",
+        }
+    }
+}
+
+#[derive(Clone)]
+pub struct Cfg {
+    pub phase: Phase,
+    pub kind: Kind,
+    /// Medium::Ethernet (true) or Medium::Ip (false)
+    pub eth: bool,
+    pub v6: bool,
+    /// metadata slots of the rx and of the tx packet buffer
+    pub slots: usize,
+    /// payload capacity of each buffer is 2*hdr + k bytes (hdr = per-datagram overhead the
+    /// application has to supply: 0 udp, 8 icmp, 20/40 raw)
+    pub k: usize,
+    /// Ethernet only: default route via the (initially unresolved) neighbor B; otherwise no
+    /// route at all for the off-link destination C
+    pub via_b: bool,
+}
+impl std::fmt::Debug for Cfg {
+    fn fmt(&self, f: &mut std::fmt::Formatter) -> std::fmt::Result {
+        write!(
+            f,
+            "phase={} kind={} medium={} ip={} slots={} k={} route={}",
+            self.phase.name(),
+            self.kind.name(),
+            if self.eth { "eth" } else { "ip" },
+            if self.v6 { "v6" } else { "v4" },
+            self.slots,
+            self.k,
+            if self.via_b { "viaB" } else { "none" }
+        )
+    }
+}
+impl Cfg {
+    fn parse(s: &str) -> Option<Cfg> {
+        let mut c = Cfg { phase: Phase::Mix, kind: Kind::Udp, eth: true, v6: false, slots: 1, k: 4, via_b: false };
+        let mut seen = 0;
+        for tok in s.split_whitespace() {
+            let (k, v) = tok.split_once('=')?;
+            seen += 1;
+            match k {
+                "phase" => {
+                    c.phase = match v {
+                        "mix" => Phase::Mix,
+                        "tx" => Phase::Tx,
+                        "rx" => Phase::Rx,
+                        _ => return None,
+                    }
+                }
+                "kind" => {
+                    c.kind = match v {
+                        "udp" => Kind::Udp,
+                        "icmp" => Kind::Icmp,
+                        "raw" => Kind::Raw,
+                        _ => return None,
+                    }
+                }
+                "medium" => c.eth = v == "eth",
+                "ip" => c.v6 = v == "v6",
+                "slots" => c.slots = v.parse().ok()?,
+                "k" => c.k = v.parse().ok()?,
+                "route" => c.via_b = v == "viaB",
+                _ => return None,
+            }
+        }
+        if seen == 7 {
+            Some(c)
+        } else {
+            None
+        }
+    }
+    /// bytes of header the application supplies in front of the free data of a datagram
+    fn hdr(&self) -> usize {
+        match self.kind {
+            Kind::Udp => 0,
+            Kind::Icmp => 8,
+            Kind::Raw => {
+                if self.v6 {
+                    40
+                } else {
+                    20
+                }
+            }
+        }
+    }
+    fn cap(&self) -> usize {
+        2 * self.hdr() + self.k
+    }
+    /// datagram sizes of the alphabet: header + {0,1,3} free bytes and the payload capacity
+    fn sizes(&self) -> [usize; 4] {
+        let h = self.hdr();
+        [h, h + 1, h + 3, self.cap()]
+    }
+    fn small_buf(&self) -> usize {
+        self.hdr() + 2
+    }
+}
+
+#[derive(Clone, Copy, PartialEq, Eq, Debug, Hash, PartialOrd, Ord)]
+pub enum Who {
+    Us,
+    /// on-link neighbor, resolved before the exploration starts
+    A,
+    /// on-link neighbor, unresolved; answers only through `NeighReply` / `Drain`
+    B,
+    /// off-link host (reached through the default route via B, or unroutable)
+    C,
+}
+
+const MAC_US: [u8; 6] = [0x02, 0, 0, 0, 0, 0x01];
+const MAC_A: [u8; 6] = [0x02, 0, 0, 0, 0, 0x02];
+const MAC_B: [u8; 6] = [0x02, 0, 0, 0, 0, 0x03];
+
+fn addr(v6: bool, w: Who) -> Addr {
+    if v6 {
+        let mut a = [0u8; 16];
+        a[0] = 0xfd;
+        match w {
+            Who::Us => a[15] = 1,
+            Who::A => a[15] = 2,
+            Who::B => a[15] = 3,
+            Who::C => {
+                a[1] = 0x01;
+                a[15] = 9
+            }
+        }
+        Addr::V6(a)
+    } else {
+        match w {
+            Who::Us => Addr::V4([192, 168, 1, 1]),
+            Who::A => Addr::V4([192, 168, 1, 2]),
+            Who::B => Addr::V4([192, 168, 1, 3]),
+            Who::C => Addr::V4([10, 0, 0, 9]),
+        }
+    }
+}
+fn to_ip(a: &Addr) -> IpAddress {
+    match a {
+        Addr::V4(b) => IpAddress::Ipv4(Ipv4Address::from(*b)),
+        Addr::V6(b) => IpAddress::Ipv6(Ipv6Address::from(*b)),
+    }
+}
+fn from_ip(a: &IpAddress) -> Addr {
+    match a {
+        IpAddress::Ipv4(x) => Addr::V4(x.octets()),
+        IpAddress::Ipv6(x) => Addr::V6(x.octets()),
+    }
+}
+
+const LOCAL_PORT: u16 = 5000;
+const REMOTE_PORT: u16 = 7000;
+const ICMP_IDENT: u16 = 0x1234;
+const RAW_PROTO: u8 = 63;
+
+/// free data bytes of a datagram: position sensitive, different for different labels at
+/// every position (37 is odd, hence invertible modulo 256)
+fn data(n: usize, label: u8) -> Vec<u8> {
+    (0..n).map(|i| label.wrapping_mul(37).wrapping_add((i as u8).wrapping_mul(3)).wrapping_add(1)).collect()
+}
+
+// ---------------------------------------------------------------------------------------
+// device with "refuse the next n transmit() calls"
+// ---------------------------------------------------------------------------------------
+
+pub struct BpDev {
+    pub inner: SimDevice,
+    pub refuse_next: usize,
+}
+impl Device for BpDev {
+    type RxToken<'a> = SimRx;
+    type TxToken<'a> = SimTx<'a>;
+    fn capabilities(&self) -> DeviceCapabilities {
+        self.inner.capabilities()
+    }
+    fn receive(&mut self, ts: Instant) -> Option<(SimRx, SimTx<'_>)> {
+        self.inner.receive(ts)
+    }
+    fn transmit(&mut self, ts: Instant) -> Option<SimTx<'_>> {
+        if self.refuse_next > 0 {
+            self.refuse_next -= 1;
+            stat(O::TransmitRefused);
+            None
+        } else {
+            self.inner.transmit(ts)
+        }
+    }
+}
+
+// ---------------------------------------------------------------------------------------
+// outcome statistics (summed over all executions incl. re-executed history prefixes)
+// ---------------------------------------------------------------------------------------
+
+macro_rules! outcomes {
+    ($($name:ident => $text:expr),* $(,)?) => {
+        #[derive(Clone, Copy)]
+        #[allow(dead_code)]
+        enum O { $($name),* }
+        const O_NAMES: &[&str] = &[$($text),*];
+    };
+}
+outcomes! {
+    SendOk => "send:accepted",
+    SendFull => "send:BufferFull",
+    SendUnaddr => "send:Unaddressable",
+    RecvOk => "recv_slice:data",
+    RecvExhausted => "recv_slice:Exhausted",
+    RecvTruncated => "recv_slice:Truncated(datagram discarded)",
+    PeekOk => "peek:data",
+    PeekExhausted => "peek:Exhausted",
+    PeekTruncated => "peek_slice:Truncated",
+    BindOk => "bind:Ok",
+    BindErr => "bind:InvalidState",
+    Close => "close",
+    InDelivered => "inbound:delivered",
+    InDeliveredZero => "inbound:zero-length datagram delivered",
+    InDroppedTolerated => "inbound:dropped(rx queue non-empty)",
+    InNotEligible => "inbound:not-for-socket(unbound/non-matching/oversize),not queued",
+    TxMatched => "frame:socket-datagram==head-of-model-queue",
+    TxMatchedSkipping => "frame:socket-datagram matched after skipping never-deliverable entries",
+    TxArpReq => "frame:ARP request",
+    TxNs => "frame:neighbor solicitation",
+    TxOther => "frame:other (ICMP error, MLD, ARP reply, NA)",
+    TransmitRefused => "device:transmit() refused",
+    NeighReply => "neighbor reply injected",
+    DrainQuiescent => "drain:reached quiescence",
+    DrainStuck => "drain:stopped with poll_at due but nothing happening",
+    DrainCap => "drain:iteration cap hit (no liveness verdict)",
+    LiveOk => "drain:deliverable datagrams all transmitted",
+    LiveUndeliverableLeft => "drain:never-deliverable datagram still pending (tolerated)",
+    PaddingState => "fingerprint:a ring holds a wrap-around padding record",
+}
+// per-thread counters (no cache-line ping-pong between the 16 workers), summed at the end
+thread_local! {
+    static LOCAL_OUT: [std::cell::Cell<u64>; 32] = const { [const { std::cell::Cell::new(0) }; 32] };
+}
+static OUT: [AtomicU64; 32] = [const { AtomicU64::new(0) }; 32];
+fn stat(o: O) {
+    LOCAL_OUT.with(|l| l[o as usize].set(l[o as usize].get() + 1));
+}
+fn flush_stats() {
+    let flush = || {
+        LOCAL_OUT.with(|l| {
+            for (i, c) in l.iter().enumerate() {
+                OUT[i].fetch_add(c.replace(0), Ordering::Relaxed);
+            }
+        })
+    };
+    flush();
+    rayon::broadcast(|_| flush());
+}
+static VERBOSE: AtomicBool = AtomicBool::new(false);
+macro_rules! vlog {
+    ($($a:tt)*) => { if VERBOSE.load(Ordering::Relaxed) { println!($($a)*); } };
+}
+
+// ---------------------------------------------------------------------------------------
+// model
+// ---------------------------------------------------------------------------------------
+
+#[derive(Clone, Debug)]
+struct TxEntry {
+    label: u8,
+    dst: Who,
+    /// exactly what the application handed to send*
+    bytes: Vec<u8>,
+    malformed: bool,
+}
+
+#[derive(Clone, Debug)]
+struct RxEntry {
+    label: u8,
+    from: Who,
+    /// what recv must return: udp payload / ICMP message / IP packet
+    bytes: Vec<u8>,
+}
+
+fn oa(a: &Option<Addr>) -> String {
+    a.as_ref().map_or("-".to_string(), |a| a.to_string())
+}
+
+enum Got {
+    Data { bytes: Vec<u8>, src: Option<Addr>, sport: Option<u16>, local: Option<Option<Addr>> },
+    Exhausted,
+    Truncated,
+}
+
+#[derive(Clone, Debug, PartialEq)]
+pub enum Api {
+    SendSlice,
+    Send,
+    SendWith,
+}
+
+#[derive(Clone, Debug, PartialEq)]
+pub enum Ev {
+    /// `size` = total bytes handed to the socket (header supplied by the application included)
+    Send { size: usize, dst: Who, api: Api, malformed: bool },
+    RecvBig,
+    RecvSmall,
+    Peek,
+    PeekSmall,
+    BindPort,
+    BindAddr,
+    Close,
+    Poll,
+    PollEgress,
+    /// a datagram frame arrives and the interface is polled
+    Inbound { size: usize, from: Who, matching: bool },
+    /// the ARP reply / neighbor advertisement of B arrives and the interface is polled
+    NeighReply,
+    /// the next n `transmit()` calls are refused
+    Refuse(usize),
+    /// +1 s
+    Tick,
+    /// lift back-pressure, answer neighbor requests, poll to quiescence, check tx liveness
+    Drain,
+}
+
+pub struct DgH {
+    cfg: Cfg,
+    dev: BpDev,
+    iface: Interface,
+    sockets: SocketSet<'static>,
+    h: SocketHandle,
+    now: i64,
+    tx_model: VecDeque<TxEntry>,
+    rx_model: VecDeque<RxEntry>,
+    tx_label: u8,
+    rx_label: u8,
+    /// a neighbor request for B was seen on the wire and not answered yet
+    pending_b: bool,
+    b_resolved: bool,
+    /// the model lost track after a violation: no further events
+    tainted: bool,
+    last_sent: Option<Vec<u8>>,
+    last_recv: Option<Vec<u8>>,
+    events: std::sync::Arc<Vec<Ev>>,
+}
+
+fn mk_buf<H: Clone>(empty: smoltcp::storage::PacketMetadata<H>, slots: usize, bytes: usize) -> smoltcp::storage::PacketBuffer<'static, H> {
+    smoltcp::storage::PacketBuffer::new(vec![empty; slots], vec![0u8; bytes])
+}
+
+impl DgH {
+    fn us(&self) -> Addr {
+        addr(self.cfg.v6, Who::Us)
+    }
+    fn a(&self, w: Who) -> Addr {
+        addr(self.cfg.v6, w)
+    }
+    fn viol(&mut self, out: &mut Vec<Viol>, clause: &str, cause: &str, detail: String, taint: bool) {
+        let sig = format!("C09/{}/{}/{}", self.cfg.kind.name(), clause, cause);
+        vlog!("      !! {} :: {}", sig, detail);
+        out.push(Viol::new(sig, format!("[{:?}] {}", self.cfg, detail)));
+        if taint {
+            self.tainted = true;
+        }
+    }
+
+    fn all_events(cfg: &Cfg) -> Vec<Ev> {
+        let mut v = vec![];
+        let (tx, rx, mix) = (cfg.phase != Phase::Rx, cfg.phase != Phase::Tx, cfg.phase == Phase::Mix);
+        let dsts: &[Who] = if cfg.eth { &[Who::A, Who::B, Who::C] } else { &[Who::A, Who::C] };
+        // On Medium::Ip there is no neighbor resolution at all (dispatch_ip never looks at the
+        // neighbor cache or the routes), so A and B are the same case: only A and C are offered.
+        if tx {
+            for (si, &size) in cfg.sizes().iter().enumerate() {
+                for (di, &dst) in dsts.iter().enumerate() {
+                    // every api sees every size and every destination at least once
+                    let api = match (si + di) % 3 {
+                        0 => Api::SendSlice,
+                        1 => Api::Send,
+                        _ => Api::SendWith,
+                    };
+                    v.push(Ev::Send { size, dst, api, malformed: false });
+                }
+            }
+            if cfg.kind != Kind::Udp {
+                // 3 bytes that are neither an ICMP message nor an IP packet
+                v.push(Ev::Send { size: 3, dst: Who::A, api: Api::SendSlice, malformed: true });
+            }
+        }
+        if rx {
+            v.push(Ev::RecvBig);
+            v.push(Ev::RecvSmall);
+            if cfg.kind != Kind::Icmp {
+                v.push(Ev::Peek);
+                v.push(Ev::PeekSmall);
+            }
+        }
+        match cfg.kind {
+            Kind::Udp => {
+                if mix {
+                    v.push(Ev::BindPort);
+                }
+                v.push(Ev::BindAddr);
+                v.push(Ev::Close);
+            }
+            Kind::Icmp => {
+                if mix {
+                    v.push(Ev::BindPort)
+                }
+            }
+            Kind::Raw => {}
+        }
+        if tx {
+            v.push(Ev::Poll);
+            v.push(Ev::PollEgress);
+        }
+        if rx {
+            let s = cfg.sizes();
+            v.push(Ev::Inbound { size: s[0], from: Who::A, matching: true });
+            v.push(Ev::Inbound { size: s[1], from: Who::B, matching: true });
+            v.push(Ev::Inbound { size: s[2], from: Who::A, matching: true });
+            v.push(Ev::Inbound { size: s[3], from: Who::A, matching: true });
+            v.push(Ev::Inbound { size: s[3] + 1, from: Who::B, matching: true });
+            v.push(Ev::Inbound { size: s[1], from: Who::B, matching: false });
+        }
+        if tx {
+            v.push(Ev::Refuse(1));
+            v.push(Ev::Refuse(2));
+            v.push(Ev::Tick);
+            v.push(Ev::Drain);
+            if cfg.eth {
+                v.push(Ev::NeighReply);
+            }
+        }
+        v
+    }
+
+    // ---- socket access -----------------------------------------------------------------
+    fn udp(&mut self) -> &mut udp::Socket<'static> {
+        self.sockets.get_mut::<udp::Socket>(self.h)
+    }
+    fn icmp(&mut self) -> &mut icmp::Socket<'static> {
+        self.sockets.get_mut::<icmp::Socket>(self.h)
+    }
+    fn raw(&mut self) -> &mut raw::Socket<'static> {
+        self.sockets.get_mut::<raw::Socket>(self.h)
+    }
+    fn send_queue(&self) -> usize {
+        match self.cfg.kind {
+            Kind::Udp => self.sockets.get::<udp::Socket>(self.h).send_queue(),
+            Kind::Icmp => self.sockets.get::<icmp::Socket>(self.h).send_queue(),
+            Kind::Raw => self.sockets.get::<raw::Socket>(self.h).send_queue(),
+        }
+    }
+    fn recv_queue(&self) -> usize {
+        match self.cfg.kind {
+            Kind::Udp => self.sockets.get::<udp::Socket>(self.h).recv_queue(),
+            Kind::Icmp => self.sockets.get::<icmp::Socket>(self.h).recv_queue(),
+            Kind::Raw => self.sockets.get::<raw::Socket>(self.h).recv_queue(),
+        }
+    }
+    fn can_recv(&self) -> bool {
+        match self.cfg.kind {
+            Kind::Udp => self.sockets.get::<udp::Socket>(self.h).can_recv(),
+            Kind::Icmp => self.sockets.get::<icmp::Socket>(self.h).can_recv(),
+            Kind::Raw => self.sockets.get::<raw::Socket>(self.h).can_recv(),
+        }
+    }
+    /// number of packet (non-padding) records in the rx buffer according to the socket's
+    /// `Debug` image
+    fn rx_packets_queued(&self) -> usize {
+        let img = format!("{:?}", self.sockets);
+        const K: &str = "rx_buffer: PacketBuffer { metadata_ring: RingBuffer { storage: Owned([";
+        let Some(i) = img.find(K) else { return 0 };
+        match parse_meta_ring(&img[i + K.len()..]) {
+            Some((entries, r, l, _)) if !entries.is_empty() => (0..l.min(entries.len())).filter(|k| entries[(r + k) % entries.len()].contains("header: Some")).count(),
+            _ => 0,
+        }
+    }
+    /// does the socket currently accept the harness' "matching" inbound datagrams?
+    fn rx_open(&self) -> bool {
+        match self.cfg.kind {
+            Kind::Udp => self.sockets.get::<udp::Socket>(self.h).is_open(),
+            Kind::Icmp => self.sockets.get::<icmp::Socket>(self.h).is_open(),
+            Kind::Raw => true,
+        }
+    }
+
+    // ---- datagram construction -----------------------------------------------------------
+    /// bytes the application hands to send* for a datagram of `size` bytes to `dst`
+    fn app_datagram(&self, size: usize, dst: Who, label: u8, malformed: bool) -> Vec<u8> {
+        let v6 = self.cfg.v6;
+        if malformed {
+            return match self.cfg.kind {
+                Kind::Raw => vec![if v6 { 0x60 } else { 0x45 }, 0, 0],
+                _ => vec![if v6 { 128 } else { 8 }, 0, 0],
+            };
+        }
+        let free = data(size - self.cfg.hdr(), label);
+        match self.cfg.kind {
+            Kind::Udp => free,
+            Kind::Icmp => fr::icmp_echo(&self.us(), &self.a(dst), false, ICMP_IDENT, label as u16, &free),
+            Kind::Raw => fr::ip(&self.us(), &self.a(dst), RAW_PROTO, 60 + label, &free),
+        }
+    }
+
+    /// (frame for the device, bytes recv must return) of an inbound datagram
+    fn inbound_frame(&self, size: usize, from: Who, matching: bool, label: u8) -> (Vec<u8>, Vec<u8>) {
+        let v6 = self.cfg.v6;
+        let (src, dst) = (self.a(from), self.us());
+        let free = data(size - self.cfg.hdr(), label);
+        let (packet, expect) = match self.cfg.kind {
+            Kind::Udp => {
+                let port = if matching { LOCAL_PORT } else { LOCAL_PORT + 1 };
+                let u = fr::udp(&src, &dst, REMOTE_PORT + 1, port, &free);
+                (fr::ip(&src, &dst, fr::PROTO_UDP, 64, &u), free)
+            }
+            Kind::Icmp => {
+                let ident = if matching { ICMP_IDENT } else { 0x4321 };
+                let m = fr::icmp_echo(&src, &dst, true, ident, label as u16, &free);
+                (fr::ip(&src, &dst, if v6 { fr::PROTO_ICMPV6 } else { fr::PROTO_ICMP }, 64, &m), m)
+            }
+            Kind::Raw => {
+                let proto = if matching { RAW_PROTO } else { RAW_PROTO + 1 };
+                let p = fr::ip(&src, &dst, proto, 64, &free);
+                (p.clone(), p)
+            }
+        };
+        let frame = if self.cfg.eth {
+            let smac = if from == Who::A { MAC_A } else { MAC_B };
+            fr::eth(&MAC_US, &smac, if v6 { fr::ETH_IPV6 } else { fr::ETH_IPV4 }, &packet)
+        } else {
+            packet
+        };
+        (frame, expect)
+    }
+
+    fn neigh_reply_frame(&self, who: Who) -> Vec<u8> {
+        let mac = if who == Who::A { MAC_A } else { MAC_B };
+        if self.cfg.v6 {
+            let (src, dst) = (self.a(who), self.us());
+            let Addr::V6(t) = src.clone() else { unreachable!() };
+            let na = fr::ndisc_na(&src, &dst, &t, &mac);
+            fr::eth(&MAC_US, &mac, fr::ETH_IPV6, &fr::ip(&src, &dst, fr::PROTO_ICMPV6, 255, &na))
+        } else {
+            let (Addr::V4(spa), Addr::V4(tpa)) = (self.a(who), self.us()) else { unreachable!() };
+            fr::eth(&MAC_US, &mac, fr::ETH_ARP, &fr::arp(2, &mac, &spa, &MAC_US, &tpa))
+        }
+    }
+
+    // ---- polling and the tx oracle ---------------------------------------------------------
+    fn ts(&self) -> Instant {
+        Instant::from_micros(self.now)
+    }
+    fn poll(&mut self, out: &mut Vec<Viol>) -> usize {
+        let t = self.ts();
+        self.iface.poll(t, &mut self.dev, &mut self.sockets);
+        self.collect(out)
+    }
+    fn collect(&mut self, out: &mut Vec<Viol>) -> usize {
+        let frames = self.dev.inner.take_tx();
+        let n = frames.len();
+        for (_, f) in frames {
+            self.on_frame(&f, out);
+        }
+        n
+    }
+
+    fn is_socket_datagram(&self, info: &wc::IpInfo, payload: &[u8]) -> bool {
+        match self.cfg.kind {
+            Kind::Udp => info.proto == fr::PROTO_UDP,
+            // the socket under test only ever sends echo REQUESTS; the stack itself never
+            // originates one (it answers with replies / errors / NDISC / MLD)
+            Kind::Icmp => {
+                (info.version == 4 && info.proto == fr::PROTO_ICMP && payload.first() == Some(&8))
+                    || (info.version == 6 && info.proto == fr::PROTO_ICMPV6 && payload.first() == Some(&128))
+            }
+            Kind::Raw => info.proto == RAW_PROTO,
+        }
+    }
+
+    /// None = identical; Some(aspect) = first differing aspect (used for the signature cause)
+    fn tx_diff(&self, e: &TxEntry, info: &wc::IpInfo, payload: &[u8]) -> Option<&'static str> {
+        if e.malformed {
+            // 3 bytes of garbage: nothing on the wire can be "that datagram, unmodified"
+            return Some("malformed-datagram-transmitted");
+        }
+        if info.dst != self.a(e.dst) {
+            return Some("destination-address");
+        }
+        match self.cfg.kind {
+            Kind::Udp => match fr::parse_udp(payload) {
+                Err(_) => Some("udp-length-field"),
+                Ok((_, dport, d)) => {
+                    if dport != REMOTE_PORT {
+                        Some("destination-port")
+                    } else if d.len() != e.bytes.len() {
+                        Some("payload-length")
+                    } else if d != &e.bytes[..] {
+                        Some("payload-bytes")
+                    } else {
+                        None
+                    }
+                }
+            },
+            Kind::Icmp => {
+                // smoltcp documents nothing about the checksum of a packet handed to an icmp
+                // socket; it parses and re-emits the message (recomputing the checksum), so the
+                // checksum field is masked (lenient reading of "unmodified").
+                if payload.len() != e.bytes.len() {
+                    Some("payload-length")
+                } else if payload[..2] != e.bytes[..2] || payload[4..] != e.bytes[4..] {
+                    Some("payload-bytes")
+                } else {
+                    None
+                }
+            }
+            Kind::Raw => {
+                // "The IP header is parsed and re-serialized, and may not match the header
+                // actually transmitted bit for bit" (raw::Socket::send): compare the fields
+                // that identify the datagram plus the payload behind the header.
+                let h = self.cfg.hdr();
+                if info.proto != RAW_PROTO {
+                    Some("protocol")
+                } else if info.hop_limit != e.bytes[if self.cfg.v6 { 7 } else { 8 }] {
+                    Some("hop-limit")
+                } else if payload.len() != e.bytes.len() - h {
+                    Some("payload-length")
+                } else if payload != &e.bytes[h..] {
+                    Some("payload-bytes")
+                } else {
+                    None
+                }
+            }
+        }
+    }
+
+    fn deliverable(&self, e: &TxEntry) -> bool {
+        !e.malformed && (e.dst != Who::C || !self.cfg.eth || self.cfg.via_b)
+    }
+
+    fn on_frame(&mut self, f: &[u8], out: &mut Vec<Viol>) {
+        let p = fr::parse_frame(self.cfg.eth, f);
+        let (info, packet) = match &p.l3 {
+            fr::L3::Arp { oper, tpa, .. } => {
+                vlog!("      tx: ARP oper={} target={:?}", oper, tpa);
+                if *oper == 1 {
+                    stat(O::TxArpReq);
+                    if Addr::V4(*tpa) == self.a(Who::B) {
+                        self.pending_b = true;
+                    }
+                } else {
+                    stat(O::TxOther);
+                }
+                return;
+            }
+            fr::L3::Bad(e) => {
+                let d = format!("frame {} cannot be parsed: {}", hex(f), e);
+                self.viol(out, "tx-frame", "unparsable", d, true);
+                return;
+            }
+            fr::L3::Ip { info, packet } => (info.clone(), packet.clone()),
+        };
+        let payload = &packet[info.payload_off..];
+        vlog!("      tx: {} -> {} proto {} len {} {}", info.src, info.dst, info.proto, payload.len(), hex(payload));
+        if info.proto == fr::PROTO_ICMPV6 && payload.first() == Some(&135) {
+            stat(O::TxNs);
+            if payload.len() >= 24 && Addr::V6(payload[8..24].try_into().unwrap()) == self.a(Who::B) {
+                self.pending_b = true;
+            }
+            return;
+        }
+        if !self.is_socket_datagram(&info, payload) {
+            stat(O::TxOther);
+            return;
+        }
+        // --- a datagram of the socket under test is on the wire ---
+        let pos = (0..self.tx_model.len()).find(|&i| self.tx_diff(&self.tx_model[i], &info, payload).is_none());
+        let Some(pos) = pos else {
+            let desc = format!("{} -> {} {}", info.src, info.dst, hex(payload));
+            if self.tx_model.is_empty() {
+                if self.last_sent.as_deref() == Some(&packet[..]) {
+                    self.viol(out, "tx-once", "duplicate-transmission", format!("datagram {} transmitted a second time (nothing queued)", desc), true);
+                } else {
+                    self.viol(out, "tx-accepted", "frame-without-accepted-datagram", format!("datagram {} on the wire but no accepted datagram is pending", desc), true);
+                }
+            } else {
+                let head = self.tx_model[0].clone();
+                let aspect = self.tx_diff(&head, &info, payload).unwrap_or("?");
+                let dup = self.last_sent.as_deref() == Some(&packet[..]);
+                let d = format!(
+                    "datagram {} on the wire matches no pending accepted datagram; oldest pending: to {} bytes {}{}",
+                    desc,
+                    self.a(head.dst),
+                    hex(&head.bytes),
+                    if dup { " (identical to the previously transmitted frame)" } else { "" }
+                );
+                if dup {
+                    self.viol(out, "tx-once", "duplicate-transmission", d, true);
+                } else {
+                    self.viol(out, "tx-unmodified", aspect, d, true);
+                }
+            }
+            return;
+        };
+        // entries in front of it can only be skipped if they can never be delivered
+        if let Some(j) = (0..pos).find(|&j| self.deliverable(&self.tx_model[j])) {
+            let e = self.tx_model[j].clone();
+            let d = format!(
+                "datagram #{} to {} transmitted while the older accepted datagram #{} to {} ({} bytes) is still pending",
+                self.tx_model[pos].label,
+                info.dst,
+                e.label,
+                self.a(e.dst),
+                e.bytes.len()
+            );
+            self.viol(out, "tx-order", "overtook-older-datagram", d, true);
+            return;
+        }
+        stat(if pos == 0 { O::TxMatched } else { O::TxMatchedSkipping });
+        let e = self.tx_model[pos].clone();
+        for _ in 0..=pos {
+            self.tx_model.pop_front();
+        }
+        self.last_sent = Some(packet.clone());
+        // addressing of the matched datagram
+        // the interface owns exactly one address of the family (udp/icmp: selected by the
+        // stack; raw: the address the application wrote into its header)
+        if info.src != self.us() {
+            let d = format!("datagram #{} to {} left with source address {}", e.label, info.dst, info.src);
+            self.viol(out, "tx-addressing", "source-address", d, false);
+        }
+        if self.cfg.kind == Kind::Udp {
+            if let Ok((sport, _, _)) = fr::parse_udp(payload) {
+                if sport != LOCAL_PORT {
+                    let d = format!("datagram #{} left with source port {} (socket bound to {})", e.label, sport, LOCAL_PORT);
+                    self.viol(out, "tx-addressing", "source-port", d, false);
+                }
+            }
+        }
+        if self.cfg.eth && p.eth_src != Some(MAC_US) {
+            let d = format!("datagram #{} to {} left with source MAC {:02x?}", e.label, info.dst, p.eth_src);
+            self.viol(out, "tx-addressing", "source-mac", d, false);
+        }
+        if self.cfg.eth {
+            let want = match e.dst {
+                Who::A => Some(MAC_A),
+                Who::B => Some(MAC_B),
+                Who::C if self.cfg.via_b => Some(MAC_B),
+                _ => None,
+            };
+            match want {
+                None => {
+                    let d = format!("datagram #{} to {} transmitted although there is no route to it (frame to {:02x?})", e.label, info.dst, p.eth_dst);
+                    self.viol(out, "tx-addressing", "sent-without-route", d, false);
+                }
+                Some(m) => {
+                    if p.eth_dst != Some(m) {
+                        let d = format!("datagram #{} to {} sent to MAC {:02x?}, next hop has {:02x?}", e.label, info.dst, p.eth_dst, m);
+                        self.viol(out, "tx-addressing", "next-hop-mac", d, false);
+                    }
+                }
+            }
+        }
+    }
+
+    // ---- application events ---------------------------------------------------------------
+    fn do_send(&mut self, size: usize, dst: Who, api: &Api, malformed: bool, out: &mut Vec<Viol>) {
+        let label = self.tx_label;
+        let bytes = self.app_datagram(size, dst, label, malformed);
+        let n = bytes.len();
+        let max = (n + 2).min(self.cfg.cap().max(n));
+        let dst_ip = to_ip(&self.a(dst));
+        let q0 = self.send_queue();
+        // Result<(), (is Unaddressable, text)>
+        let mut wrote = usize::MAX;
+        let res: Result<(), (bool, String)> = match self.cfg.kind {
+            Kind::Udp => {
+                let ep = IpEndpoint::new(dst_ip, REMOTE_PORT);
+                let s = self.udp();
+                let r = match api {
+                    Api::SendSlice => s.send_slice(&bytes, ep),
+                    Api::Send => s.send(n, ep).map(|b| b.copy_from_slice(&bytes)),
+                    Api::SendWith => s
+                        .send_with(max, ep, |b| {
+                            b[..n].copy_from_slice(&bytes);
+                            n
+                        })
+                        .map(|w| wrote = w),
+                };
+                r.map_err(|e| (e == udp::SendError::Unaddressable, format!("{:?}", e)))
+            }
+            Kind::Icmp => {
+                let s = self.icmp();
+                let r = match api {
+                    Api::SendSlice => s.send_slice(&bytes, dst_ip),
+                    Api::Send => s.send(n, dst_ip).map(|b| b.copy_from_slice(&bytes)),
+                    Api::SendWith => s
+                        .send_with(max, dst_ip, |b| {
+                            b[..n].copy_from_slice(&bytes);
+                            n
+                        })
+                        .map(|w| wrote = w),
+                };
+                r.map_err(|e| (e == icmp::SendError::Unaddressable, format!("{:?}", e)))
+            }
+            Kind::Raw => {
+                let s = self.raw();
+                let r = match api {
+                    Api::SendSlice => s.send_slice(&bytes),
+                    Api::Send => s.send(n).map(|b| b.copy_from_slice(&bytes)),
+                    Api::SendWith => s
+                        .send_with(max, |b| {
+                            b[..n].copy_from_slice(&bytes);
+                            n
+                        })
+                        .map(|w| wrote = w),
+                };
+                r.map_err(|e| (false, format!("{:?}", e)))
+            }
+        };
+        match res {
+            Ok(()) => {
+                vlog!("      send -> Ok (datagram #{} {})", label, hex(&bytes));
+                stat(O::SendOk);
+                if wrote != usize::MAX && wrote != n {
+                    let d = format!("send_with closure wrote {} bytes but {} were reported", n, wrote);
+                    self.viol(out, "tx-unmodified", "send_with-size", d, true);
+                }
+                self.tx_label += 1;
+                // The tx buffer holds at most `slots` datagrams (packet_send_capacity(), public)
+                // and is a FIFO: if this one was accepted, at most slots-1 older ones are still
+                // inside, so the oldest model entries beyond that have left the socket without
+                // a frame (every frame pops its entry).  That is fine for entries that can never
+                // be delivered (malformed / unroutable: silently dropped by dispatch), and a
+                // loss for deliverable ones.
+                while self.tx_model.len() + 1 > self.cfg.slots {
+                    let gone = self.tx_model.pop_front().unwrap();
+                    if self.deliverable(&gone) {
+                        let d = format!(
+                            "send accepted datagram #{} although {} older accepted datagrams were pending in a {}-slot buffer: datagram #{} ({} bytes to {}) left the queue without being transmitted",
+                            label,
+                            self.tx_model.len() + 1,
+                            self.cfg.slots,
+                            gone.label,
+                            gone.bytes.len(),
+                            self.a(gone.dst)
+                        );
+                        self.viol(out, "tx-liveness", "vanished-from-queue", d, true);
+                    }
+                }
+                self.tx_model.push_back(TxEntry { label, dst, bytes, malformed });
+            }
+            Err((unaddr, text)) => {
+                vlog!("      send -> Err({})", text);
+                stat(if unaddr { O::SendUnaddr } else { O::SendFull });
+                let q1 = self.send_queue();
+                if q1 != q0 {
+                    let d = format!("send of {} bytes returned Err({}) but send_queue() went from {} to {}", n, text, q0, q1);
+                    self.viol(out, "tx-error", "queued-despite-error", d, true);
+                }
+            }
+        }
+    }
+
+    fn rx_diff(&self, e: &RxEntry, bytes: &[u8], src: &Option<Addr>, sport: &Option<u16>, local: &Option<Option<Addr>>) -> Option<&'static str> {
+        match self.cfg.kind {
+            Kind::Udp => {
+                if bytes.len() < e.bytes.len() && e.bytes.starts_with(bytes) {
+                    return Some("silently-shortened");
+                }
+                if bytes != &e.bytes[..] {
+                    return Some("payload");
+                }
+            }
+            Kind::Icmp => {
+                // process_v4/v6 re-emit the parsed message into the rx buffer (checksum
+                // recomputed): mask the checksum field
+                if bytes.len() < e.bytes.len() && bytes.len() >= 4 && e.bytes[4..].starts_with(&bytes[4..]) && e.bytes[..2] == bytes[..2] {
+                    return Some("silently-shortened");
+                }
+                if bytes.len() != e.bytes.len() || bytes.len() < 8 || bytes[..2] != e.bytes[..2] || bytes[4..] != e.bytes[4..] {
+                    return Some("payload");
+                }
+            }
+            Kind::Raw => {
+                // "The IP header is parsed and re-serialized, and may not match the header
+                // actually received bit for bit" (raw::Socket::recv): compare addresses,
+                // protocol and the payload behind the header
+                let h = self.cfg.hdr();
+                if bytes.len() < e.bytes.len() && bytes.len() >= h && e.bytes[h..].starts_with(&bytes[h..]) {
+                    return Some("silently-shortened");
+                }
+                let (Ok(g), Ok(x)) = (wc::parse_ip(bytes), wc::parse_ip(&e.bytes)) else { return Some("payload") };
+                if g.src != x.src {
+                    return Some("source-address");
+                }
+                if g.dst != x.dst {
+                    return Some("local-address");
+                }
+                if g.proto != x.proto || bytes[g.payload_off..] != e.bytes[x.payload_off..] {
+                    return Some("payload");
+                }
+            }
+        }
+        if let Some(s) = src {
+            if *s != self.a(e.from) {
+                return Some("source-address");
+            }
+        }
+        if let Some(p) = sport {
+            if *p != REMOTE_PORT + 1 {
+                return Some("source-port");
+            }
+        }
+        if let Some(l) = local {
+            if *l != Some(self.us()) {
+                return Some("local-address");
+            }
+        }
+        None
+    }
+
+    /// Compare what a recv/peek call returned with the model. `consume`: recv_slice (also on
+    /// Truncated, where all three socket kinds document that the datagram is discarded).
+    fn rx_observe(&mut self, call: &str, got: Got, buflen: usize, consume: bool, out: &mut Vec<Viol>) {
+        let head = self.rx_model.front().cloned();
+        match got {
+            Got::Exhausted => {
+                vlog!("      {} -> Exhausted", call);
+                if let Some(e) = head {
+                    let d = format!("{} returned Exhausted but datagram #{} ({} bytes from {}) was delivered and never read", call, e.label, e.bytes.len(), self.a(e.from));
+                    self.viol(out, "rx-once", "delivered-datagram-lost", d, true);
+                }
+            }
+            Got::Truncated => {
+                vlog!("      {} -> Truncated", call);
+                match head {
+                    Some(e) if e.bytes.len() > buflen => {
+                        if consume {
+                            self.rx_model.pop_front();
+                        }
+                    }
+                    _ => {
+                        let d = format!("{} with a {}-byte buffer returned Truncated but the oldest unread datagram has {:?} bytes", call, buflen, head.map(|e| e.bytes.len()));
+                        self.viol(out, "rx-truncated", "spurious-truncated", d, true);
+                    }
+                }
+            }
+            Got::Data { bytes, src, sport, local } => {
+                vlog!("      {} -> {} bytes {} from {}:{:?} local {:?}", call, bytes.len(), hex(&bytes), oa(&src), sport, local.as_ref().map(oa));
+                let got_desc = format!("{} bytes {} (src {}:{:?}, local {:?})", bytes.len(), hex(&bytes), oa(&src), sport, local.as_ref().map(oa));
+                let Some(e) = head else {
+                    if self.last_recv.as_deref() == Some(&bytes[..]) {
+                        let d = format!("{} returned {} although every delivered datagram was read: the datagram read last comes a second time", call, got_desc);
+                        self.viol(out, "rx-once", "duplicate-delivery", d, true);
+                    } else {
+                        let d = format!("{} returned {} but no datagram for this socket is unread", call, got_desc);
+                        self.viol(out, "rx-match", "unexpected-datagram", d, true);
+                    }
+                    return;
+                };
+                if let Some(aspect) = self.rx_diff(&e, &bytes, &src, &sport, &local) {
+                    let later = (1..self.rx_model.len()).find(|&i| self.rx_diff(&self.rx_model[i], &bytes, &src, &sport, &local).is_none());
+                    let want = format!("oldest unread datagram #{}: {} bytes {} from {}", e.label, e.bytes.len(), hex(&e.bytes), self.a(e.from));
+                    if let Some(i) = later {
+                        let d = format!("{} returned datagram #{} ({}) before the {}", call, self.rx_model[i].label, got_desc, want);
+                        self.viol(out, "rx-order", "overtook-older-datagram", d, true);
+                    } else {
+                        let clause = match aspect {
+                            "silently-shortened" => "rx-truncated",
+                            "payload" => "rx-whole",
+                            _ => "rx-metadata",
+                        };
+                        let d = format!("{} returned {}; {}", call, got_desc, want);
+                        self.viol(out, clause, aspect, d, true);
+                    }
+                    return;
+                }
+                if bytes.len() > buflen {
+                    let d = format!("{} wrote {} bytes into a {}-byte buffer", call, bytes.len(), buflen);
+                    self.viol(out, "rx-truncated", "overlong-result", d, true);
+                    return;
+                }
+                if consume {
+                    self.rx_model.pop_front();
+                    self.last_recv = Some(bytes);
+                }
+            }
+        }
+    }
+
+    fn do_recv(&mut self, big: bool, out: &mut Vec<Viol>) {
+        let buflen = if big { self.cfg.cap() + 8 } else { self.cfg.small_buf() };
+        let mut buf = vec![0u8; buflen];
+        let got = match self.cfg.kind {
+            Kind::Udp => match self.udp().recv_slice(&mut buf) {
+                Ok((n, m)) => Got::Data {
+                    bytes: buf[..n.min(buflen)].to_vec(),
+                    src: Some(from_ip(&m.endpoint.addr)),
+                    sport: Some(m.endpoint.port),
+                    local: Some(m.local_address.as_ref().map(from_ip)),
+                },
+                Err(udp::RecvError::Exhausted) => Got::Exhausted,
+                Err(udp::RecvError::Truncated) => Got::Truncated,
+            },
+            Kind::Icmp => match self.icmp().recv_slice(&mut buf) {
+                Ok((n, a)) => Got::Data { bytes: buf[..n.min(buflen)].to_vec(), src: Some(from_ip(&a)), sport: None, local: None },
+                Err(icmp::RecvError::Exhausted) => Got::Exhausted,
+                Err(icmp::RecvError::Truncated) => Got::Truncated,
+            },
+            Kind::Raw => match self.raw().recv_slice(&mut buf) {
+                Ok(n) => Got::Data { bytes: buf[..n.min(buflen)].to_vec(), src: None, sport: None, local: None },
+                Err(raw::RecvError::Exhausted) => Got::Exhausted,
+                Err(raw::RecvError::Truncated) => Got::Truncated,
+            },
+        };
+        stat(match got {
+            Got::Data { .. } => O::RecvOk,
+            Got::Exhausted => O::RecvExhausted,
+            Got::Truncated => O::RecvTruncated,
+        });
+        self.rx_observe(if big { "recv_slice(big)" } else { "recv_slice(small)" }, got, buflen, true, out);
+    }
+
+    fn do_peek(&mut self, small: bool, out: &mut Vec<Viol>) {
+        let buflen = if small { self.cfg.small_buf() } else { usize::MAX };
+        let mut buf = vec![0u8; if small { buflen } else { 0 }];
+        let got = match self.cfg.kind {
+            Kind::Udp => {
+                let s = self.udp();
+                let r = if small {
+                    s.peek_slice(&mut buf).map(|(n, m)| (buf[..n.min(buflen)].to_vec(), *m))
+                } else {
+                    s.peek().map(|(b, m)| (b.to_vec(), *m))
+                };
+                match r {
+                    Ok((bytes, m)) => Got::Data {
+                        bytes,
+                        src: Some(from_ip(&m.endpoint.addr)),
+                        sport: Some(m.endpoint.port),
+                        local: Some(m.local_address.as_ref().map(from_ip)),
+                    },
+                    Err(udp::RecvError::Exhausted) => Got::Exhausted,
+                    Err(udp::RecvError::Truncated) => Got::Truncated,
+                }
+            }
+            Kind::Raw => {
+                let s = self.raw();
+                let r = if small { s.peek_slice(&mut buf).map(|n| buf[..n.min(buflen)].to_vec()) } else { s.peek().map(|b| b.to_vec()) };
+                match r {
+                    Ok(bytes) => Got::Data { bytes, src: None, sport: None, local: None },
+                    Err(raw::RecvError::Exhausted) => Got::Exhausted,
+                    Err(raw::RecvError::Truncated) => Got::Truncated,
+                }
+            }
+            Kind::Icmp => return, // icmp::Socket has no peek
+        };
+        stat(match got {
+            Got::Data { .. } => O::PeekOk,
+            Got::Exhausted => O::PeekExhausted,
+            Got::Truncated => O::PeekTruncated,
+        });
+        self.rx_observe(if small { "peek_slice(small)" } else { "peek" }, got, buflen, false, out);
+    }
+
+    fn do_bind(&mut self, with_addr: bool, out: &mut Vec<Viol>) {
+        let was_open = self.rx_open();
+        let ok = match self.cfg.kind {
+            Kind::Udp => {
+                let ep = if with_addr { IpListenEndpoint { addr: Some(to_ip(&self.us())), port: LOCAL_PORT } } else { IpListenEndpoint::from(LOCAL_PORT) };
+                self.udp().bind(ep).is_ok()
+            }
+            Kind::Icmp => self.icmp().bind(icmp::Endpoint::Ident(ICMP_IDENT)).is_ok(),
+            Kind::Raw => return,
+        };
+        vlog!("      bind -> {}", if ok { "Ok" } else { "Err" });
+        stat(if ok { O::BindOk } else { O::BindErr });
+        // a (failed or successful) bind must not touch queued datagrams: the accessor
+        // checks after the event and later recv/transmissions compare against the model
+        if ok == was_open {
+            let d = format!("bind returned {} on a socket that was {}", if ok { "Ok" } else { "Err" }, if was_open { "open" } else { "closed" });
+            self.viol(out, "bind", "open-state", d, false);
+        }
+    }
+
+    fn do_inbound(&mut self, size: usize, from: Who, matching: bool, out: &mut Vec<Viol>) {
+        let label = self.rx_label;
+        self.rx_label += 1;
+        let (frame, expect) = self.inbound_frame(size, from, matching, label);
+        let q0 = self.recv_queue();
+        let n0 = if size == 0 { self.rx_packets_queued() } else { 0 };
+        let open = self.rx_open();
+        let model_empty = self.rx_model.is_empty();
+        self.dev.inner.rx.push_back(frame);
+        self.poll(out);
+        if self.tainted {
+            return;
+        }
+        let q1 = self.recv_queue();
+        let eligible = matching && open && size <= self.cfg.cap();
+        if !eligible {
+            stat(O::InNotEligible);
+            if q1 != q0 || (model_empty && self.can_recv()) {
+                let why = if !matching {
+                    "non-matching"
+                } else if !open {
+                    "unbound-socket"
+                } else {
+                    "oversize"
+                };
+                let d = format!("inbound datagram #{} ({} bytes from {}, {}) was queued in the socket (recv_queue {} -> {})", label, size, self.a(from), why, q0, q1);
+                self.viol(out, "rx-match", &format!("{}-datagram-queued", why), d, true);
+            }
+            return;
+        }
+        if size > 0 {
+            if q1 > q0 {
+                vlog!("      inbound #{} delivered (recv_queue {} -> {})", label, q0, q1);
+                stat(O::InDelivered);
+                self.rx_model.push_back(RxEntry { label, from, bytes: expect });
+            } else if model_empty {
+                let d = format!("valid datagram #{} ({} bytes <= capacity {}) for the bound socket was not delivered although its rx buffer was empty", label, size, self.cfg.cap());
+                self.viol(out, "rx-delivery", "dropped-into-empty-buffer", d, false);
+            } else {
+                vlog!("      inbound #{} dropped, rx queue non-empty (tolerated)", label);
+                stat(O::InDroppedTolerated);
+            }
+        } else {
+            // zero-length (udp only): recv_queue() cannot tell; the number of packet records
+            // in the rx buffer is read from the socket's public Debug image (only to learn
+            // WHETHER it was queued; what is queued is checked by the recv/peek oracles)
+            let n1 = self.rx_packets_queued();
+            if n1 > n0 {
+                vlog!("      inbound #{} (zero length) delivered", label);
+                stat(O::InDeliveredZero);
+                self.rx_model.push_back(RxEntry { label, from, bytes: expect });
+            } else if model_empty {
+                let d = format!("valid zero-length datagram #{} for the bound socket was not delivered although its rx buffer was empty", label);
+                self.viol(out, "rx-delivery", "dropped-into-empty-buffer", d, false);
+            } else {
+                vlog!("      inbound #{} (zero length) dropped, rx queue non-empty (tolerated)", label);
+                stat(O::InDroppedTolerated);
+            }
+        }
+    }
+
+    fn do_neigh_reply(&mut self, out: &mut Vec<Viol>) {
+        let f = self.neigh_reply_frame(Who::B);
+        self.dev.inner.rx.push_back(f);
+        self.pending_b = false;
+        self.b_resolved = true;
+        stat(O::NeighReply);
+        self.poll(out);
+    }
+
+    fn do_drain(&mut self, out: &mut Vec<Viol>) {
+        self.dev.refuse_next = 0;
+        let mut fruitless_advances = 0;
+        let mut advances = 0;
+        let mut idle_polls = 0;
+        let mut verdict = None;
+        for _ in 0..40 {
+            if self.cfg.eth && self.pending_b {
+                let f = self.neigh_reply_frame(Who::B);
+                self.dev.inner.rx.push_back(f);
+                self.pending_b = false;
+                self.b_resolved = true;
+                stat(O::NeighReply);
+            }
+            let n = self.poll(out);
+            if self.tainted {
+                return;
+            }
+            if self.cfg.eth && self.pending_b {
+                fruitless_advances = 0;
+                continue;
+            }
+            if n > 0 {
+                fruitless_advances = 0;
+                idle_polls = 0;
+                continue;
+            }
+            let t = self.ts();
+            match self.iface.poll_at(t, &self.sockets) {
+                None => {
+                    verdict = Some(O::DrainQuiescent);
+                    break;
+                }
+                Some(at) if at > t => {
+                    // a deadline in the future: go there (at most 4 times = 4 s; rate limits
+                    // of the neighbor cache and of the socket are 1 s each)
+                    if advances >= 4 || fruitless_advances >= 3 {
+                        verdict = Some(O::DrainStuck);
+                        break;
+                    }
+                    advances += 1;
+                    fruitless_advances += 1;
+                    idle_polls = 0;
+                    self.now = at.total_micros();
+                }
+                Some(_) => {
+                    // due now, but the poll just made emitted nothing. One poll() may silently
+                    // discard only ONE datagram the socket cannot serialise (its egress loop
+                    // stops when no frame was produced), so up to `slots` such polls are
+                    // progress; two more without any effect mean nothing will happen at this time.
+                    idle_polls += 1;
+                    if idle_polls >= self.cfg.slots + 2 {
+                        verdict = Some(O::DrainStuck);
+                        break;
+                    }
+                }
+            }
+        }
+        let Some(v) = verdict else {
+            stat(O::DrainCap);
+            return;
+        };
+        stat(v);
+        // liveness: every deliverable accepted datagram must have appeared by now
+        let stuck = self.tx_model.iter().enumerate().find(|(_, e)| self.deliverable(e)).map(|(i, e)| (i, e.clone()));
+        match stuck {
+            None => {
+                stat(if self.tx_model.is_empty() { O::LiveOk } else { O::LiveUndeliverableLeft });
+            }
+            Some((i, e)) => {
+                // what sits in front of it: an unroutable datagram stays at the head of the
+                // socket's queue forever; a malformed one is dropped by the socket's dispatch
+                let blocker = (0..i)
+                    .find(|&u| !self.tx_model[u].malformed)
+                    .or(if i > 0 { Some(0) } else { None })
+                    .map(|u| self.tx_model[u].clone());
+                let blocked = blocker.is_some();
+                let d = format!(
+                    "after lifting back-pressure, answering neighbor requests and polling until nothing happens (poll_at {:?}, now {} us), accepted datagram #{} ({} bytes to {}, resolvable, fits) was never transmitted{}",
+                    self.iface.poll_at(self.ts(), &self.sockets),
+                    self.now,
+                    e.label,
+                    e.bytes.len(),
+                    self.a(e.dst),
+                    match &blocker {
+                        Some(b) if blocked => format!(
+                            "; it is queued behind datagram #{} ({}) which can never be transmitted and is never dropped",
+                            b.label,
+                            if b.malformed { "malformed".to_string() } else { format!("to {} without a route", self.a(b.dst)) }
+                        ),
+                        _ => String::new(),
+                    }
+                );
+                let cause = match &blocker {
+                    Some(b) if blocked && b.malformed => "blocked-behind-malformed-datagram",
+                    Some(_) if blocked => "blocked-behind-unroutable-datagram",
+                    _ => "never-transmitted",
+                };
+                self.viol(out, "tx-liveness", cause, d, false);
+            }
+        }
+    }
+
+    /// cheap consistency checks through public accessors after every event
+    fn check_accessors(&mut self, out: &mut Vec<Viol>) {
+        if self.tainted {
+            return;
+        }
+        let can = self.can_recv();
+        if self.rx_model.is_empty() && (can || self.recv_queue() != 0) {
+            let d = format!("can_recv()={} recv_queue()={} but every delivered datagram was read", can, self.recv_queue());
+            self.viol(out, "rx-match", "phantom-datagram-queued", d, true);
+        } else if !self.rx_model.is_empty() && !can {
+            let d = "can_recv() is false but a delivered datagram was never read".to_string();
+            self.viol(out, "rx-once", "delivered-datagram-lost", d, true);
+        }
+        // accepted, deliverable, not yet on the wire => still in the socket's queue
+        let need: usize = self.tx_model.iter().filter(|e| self.deliverable(e)).map(|e| e.bytes.len()).sum();
+        let have = self.send_queue();
+        if have < need {
+            let d = format!("send_queue()={} but {} bytes of accepted deliverable datagrams have not been transmitted", have, need);
+            self.viol(out, "tx-liveness", "vanished-from-queue", d, true);
+        }
+    }
+
+    // ---- fingerprint ------------------------------------------------------------------------
+    fn normalized_image(&self) -> (String, bool) {
+        let raw = format!("{}\n{:?}", self.iface.verif_digest(), self.sockets);
+        // (1) payload ring contents are replaced by the model queues: the socket and buffer
+        //     code never branches on payload bytes (udp: opaque; icmp/raw: the header fields
+        //     parsed at dispatch are functions of (size, destination), which the model
+        //     entries carry; the free bytes only hold the per-history label), so two states
+        //     that differ only in (stale or live) payload bytes are isomorphic under a
+        //     renaming of labels. Ring geometry (read_at, length, metadata) is kept.
+        let s = strip_between(&raw, "payload_ring: RingBuffer { storage: ", ", read_at");
+        // (2) ipv4_id is only written into frames when fragmenting (Ipv4Repr::emit sets ident 0);
+        //     no datagram here exceeds the MTU, so it is never observable.
+        let s = strip_between(&s, "ipv4_id=", " ");
+        // (3) absolute instants -> relative to now; past ones collapse (only ever compared
+        //     with the current time: neighbor cache `silent_until`/`expires_at`, socket meta
+        //     `silent_until`); more than 3 s ahead collapse to "far": the only such values are
+        //     neighbor entry lifetimes (60 s), which cannot elapse within any explored history
+        //     (<= depth events of <= 4 s each, asserted in apply()).
+        let s = rel_instants(&s, self.now);
+        // (4) rings: only the ALLOCATED metadata records (in queue order) are kept; records
+        //     outside the allocated window are dead: PacketBuffer::enqueue* overwrite a slot
+        //     completely before it becomes visible and nothing reads outside the window.
+        //     The read position of an EMPTY payload ring is dropped: both enqueue paths
+        //     call `payload_ring.clear()` first when it is empty, and dequeue/peek of an
+        //     empty payload ring only ever produce empty slices.  Positions of the metadata
+        //     ring and of a non-empty payload ring are kept.
+        let (s, padding) = canon_rings(&s);
+        // (5) a socket whose neighbor wait has expired behaves exactly like an active one
+        //     (socket_meta.rs: poll_at and egress_permitted test `timestamp >= silent_until`
+        //     before anything else matters; neighbor_missing overwrites the state)
+        (collapse_expired_wait(&s), padding)
+    }
+}
+
+/// Replace every `metadata_ring: RingBuffer { storage: Owned([..]), read_at: R, length: L }` by
+/// its allocated records and every (content-stripped) payload ring by (read_at, length).
+/// Second result: true if an allocated record is a wrap-around padding record.
+fn canon_rings(s: &str) -> (String, bool) {
+    const MK: &str = "metadata_ring: RingBuffer { storage: Owned([";
+    const PK: &str = "payload_ring: RingBuffer { storage: , read_at: ";
+    let mut o = String::with_capacity(s.len());
+    let mut rest = s;
+    let mut padding = false;
+    loop {
+        let (im, ip) = (rest.find(MK), rest.find(PK));
+        match (im, ip) {
+            (Some(i), p) if p.map_or(true, |p| i < p) => {
+                o.push_str(&rest[..i]);
+                let Some((entries, r, l, tail)) = parse_meta_ring(&rest[i + MK.len()..]) else {
+                    o.push_str(&rest[i..]);
+                    break;
+                };
+                o.push_str(&format!("meta[at {} of {}:", r, entries.len()));
+                for k in 0..l.min(entries.len()) {
+                    let e = entries[(r + k) % entries.len()];
+                    if e.contains("header: None") && !e.starts_with("0,") {
+                        padding = true;
+                    }
+                    o.push_str(" {");
+                    o.push_str(e);
+                }
+                o.push(']');
+                rest = tail;
+            }
+            (_, Some(i)) => {
+                o.push_str(&rest[..i]);
+                let tail = &rest[i + PK.len()..];
+                let (r, tail) = num(tail);
+                let tail = tail.strip_prefix(", length: ").unwrap_or(tail);
+                let (l, tail) = num(tail);
+                if l == 0 {
+                    o.push_str("pay[empty]");
+                } else {
+                    o.push_str(&format!("pay[at {} len {}]", r, l));
+                }
+                rest = tail;
+            }
+            _ => {
+                o.push_str(rest);
+                break;
+            }
+        }
+    }
+    (o, padding)
+}
+
+fn num(s: &str) -> (usize, &str) {
+    let e = s.find(|c: char| !c.is_ascii_digit()).unwrap_or(s.len());
+    (s[..e].parse().unwrap_or(usize::MAX), &s[e..])
+}
+
+/// `body` starts right behind `storage: Owned([` of a metadata ring: returns the records (text
+/// behind `PacketMetadata { size: `), read_at, length and the text behind the ring.
+fn parse_meta_ring(body: &str) -> Option<(Vec<&str>, usize, usize, &str)> {
+    const EK: &str = "PacketMetadata { size: ";
+    let end = body.find("]), read_at: ")?;
+    let entries: Vec<&str> = body[..end].split(EK).skip(1).map(|e| e.trim_end_matches(", ")).collect();
+    let tail = &body[end + "]), read_at: ".len()..];
+    let (r, tail) = num(tail);
+    let tail = tail.strip_prefix(", length: ").unwrap_or(tail);
+    let (l, tail) = num(tail);
+    Some((entries, r, l, tail))
+}
+
+fn collapse_expired_wait(s: &str) -> String {
+    const K: &str = "neighbor_state: Waiting { neighbor: ";
+    let mut o = String::with_capacity(s.len());
+    let mut rest = s;
+    while let Some(i) = rest.find(K) {
+        o.push_str(&rest[..i]);
+        let body = &rest[i..];
+        let end = body.find('}').map(|e| e + 1).unwrap_or(body.len());
+        if body[..end].ends_with("silent_until: T- }") {
+            o.push_str("neighbor_state: Active");
+        } else {
+            o.push_str(&body[..end]);
+        }
+        rest = &body[end..];
+    }
+    o.push_str(rest);
+    o
+}
+
+fn strip_between(s: &str, start: &str, end: &str) -> String {
+    let mut o = String::with_capacity(s.len());
+    let mut rest = s;
+    while let Some(i) = rest.find(start) {
+        o.push_str(&rest[..i + start.len()]);
+        rest = &rest[i + start.len()..];
+        match rest.find(end) {
+            Some(j) => rest = &rest[j..],
+            None => rest = "",
+        }
+    }
+    o.push_str(rest);
+    o
+}
+
+fn rel_instants(s: &str, now: i64) -> String {
+    const KEY: &str = "Instant { micros: ";
+    let mut o = String::with_capacity(s.len());
+    let mut rest = s;
+    while let Some(i) = rest.find(KEY) {
+        o.push_str(&rest[..i]);
+        rest = &rest[i + KEY.len()..];
+        let end = rest.find(' ').unwrap_or(rest.len());
+        let n: i64 = rest[..end].parse().unwrap_or(i64::MIN);
+        rest = &rest[end..];
+        if let Some(j) = rest.find('}') {
+            rest = &rest[j + 1..];
+        }
+        let d = n.saturating_sub(now);
+        if d <= 0 {
+            o.push_str("T-");
+        } else if d > 3_000_000 {
+            o.push_str("T+far");
+        } else {
+            o.push_str(&format!("T+{}", d));
+        }
+    }
+    o.push_str(rest);
+    o
+}
+
+impl Harness for DgH {
+    type Cfg = Cfg;
+    type Ev = Ev;
+
+    fn new(cfg: &Cfg) -> Self {
+        let medium = if cfg.eth { Medium::Ethernet } else { Medium::Ip };
+        let mut dev = BpDev { inner: SimDevice::new(medium, if cfg.eth { 1514 } else { 1500 }), refuse_next: 0 };
+        let hw = if cfg.eth { HardwareAddress::Ethernet(EthernetAddress(MAC_US)) } else { HardwareAddress::Ip };
+        let mut c = Config::new(hw);
+        c.random_seed = 1;
+        let mut iface = Interface::new(c, &mut dev, Instant::from_micros(0));
+        let us = addr(cfg.v6, Who::Us);
+        iface.update_ip_addrs(|a| a.push(IpCidr::new(to_ip(&us), if cfg.v6 { 64 } else { 24 })).unwrap());
+        if cfg.eth && cfg.via_b {
+            match to_ip(&addr(cfg.v6, Who::B)) {
+                IpAddress::Ipv4(b) => {
+                    iface.routes_mut().add_default_ipv4_route(b).unwrap();
+                }
+                IpAddress::Ipv6(b) => {
+                    iface.routes_mut().add_default_ipv6_route(b).unwrap();
+                }
+            }
+        }
+        let (slots, bytes) = (cfg.slots, cfg.cap());
+        let mut sockets = SocketSet::new(vec![]);
+        let h = match cfg.kind {
+            Kind::Udp => sockets.add(udp::Socket::new(mk_buf(udp::PacketMetadata::EMPTY, slots, bytes), mk_buf(udp::PacketMetadata::EMPTY, slots, bytes))),
+            Kind::Icmp => sockets.add(icmp::Socket::new(mk_buf(icmp::PacketMetadata::EMPTY, slots, bytes), mk_buf(icmp::PacketMetadata::EMPTY, slots, bytes))),
+            Kind::Raw => sockets.add(raw::Socket::new(
+                Some(if cfg.v6 { IpVersion::Ipv6 } else { IpVersion::Ipv4 }),
+                Some(IpProtocol::Unknown(RAW_PROTO)),
+                mk_buf(raw::PacketMetadata::EMPTY, slots, bytes),
+                mk_buf(raw::PacketMetadata::EMPTY, slots, bytes),
+            )),
+        };
+        let mut hn = DgH {
+            cfg: cfg.clone(),
+            dev,
+            iface,
+            sockets,
+            h,
+            now: 0,
+            tx_model: VecDeque::new(),
+            rx_model: VecDeque::new(),
+            tx_label: 0,
+            rx_label: 0,
+            pending_b: false,
+            b_resolved: false,
+            tainted: false,
+            last_sent: None,
+            last_recv: None,
+            events: std::sync::Arc::new(Self::all_events(cfg)),
+        };
+        // the focused phases start with a bound socket (the complete alphabet of the mix phase
+        // starts unbound and contains bind)
+        if cfg.phase != Phase::Mix {
+            match cfg.kind {
+                Kind::Udp => hn.udp().bind(LOCAL_PORT).unwrap(),
+                Kind::Icmp => hn.icmp().bind(icmp::Endpoint::Ident(ICMP_IDENT)).unwrap(),
+                Kind::Raw => {}
+            }
+        }
+        // neighbor A announces itself (ARP reply / neighbor advertisement aimed at us); the
+        // interface sends its start-up traffic (MLD report for the solicited-node group)
+        if cfg.eth {
+            let f = hn.neigh_reply_frame(Who::A);
+            hn.dev.inner.rx.push_back(f);
+        }
+        for _ in 0..3 {
+            let t = hn.ts();
+            hn.iface.poll(t, &mut hn.dev, &mut hn.sockets);
+        }
+        hn.dev.inner.take_tx();
+        hn
+    }
+
+    fn enabled(&self) -> Vec<(Ev, u32)> {
+        if self.tainted {
+            return vec![];
+        }
+        self.events
+            .iter()
+            .filter(|e| match e {
+                Ev::NeighReply => self.pending_b,
+                // a second refusal order while one is still pending would only overwrite it
+                Ev::Refuse(_) => self.dev.refuse_next == 0,
+                _ => true,
+            })
+            .map(|e| (e.clone(), 0))
+            .collect()
+    }
+
+    fn apply(&mut self, ev: &Ev, out: &mut Vec<Viol>) {
+        vlog!("  t={}us {:?}", self.now, ev);
+        match ev {
+            Ev::Send { size, dst, api, malformed } => self.do_send(*size, *dst, api, *malformed, out),
+            Ev::RecvBig => self.do_recv(true, out),
+            Ev::RecvSmall => self.do_recv(false, out),
+            Ev::Peek => self.do_peek(false, out),
+            Ev::PeekSmall => self.do_peek(true, out),
+            Ev::BindPort => self.do_bind(false, out),
+            Ev::BindAddr => self.do_bind(true, out),
+            Ev::Close => {
+                // documented: "Reset the RX and TX buffers of the socket": queued datagrams
+                // are discarded on the application's request
+                self.udp().close();
+                stat(O::Close);
+                self.tx_model.clear();
+                self.rx_model.clear();
+            }
+            Ev::Poll => {
+                self.poll(out);
+            }
+            Ev::PollEgress => {
+                let t = self.ts();
+                self.iface.poll_egress(t, &mut self.dev, &mut self.sockets);
+                self.collect(out);
+            }
+            Ev::Inbound { size, from, matching } => self.do_inbound(*size, *from, *matching, out),
+            Ev::NeighReply => self.do_neigh_reply(out),
+            Ev::Refuse(n) => self.dev.refuse_next = *n,
+            Ev::Tick => self.now += 1_000_000,
+            Ev::Drain => self.do_drain(out),
+        }
+        self.check_accessors(out);
+        if VERBOSE.load(Ordering::Relaxed) && std::env::var("DGRAM_IMAGE").is_ok() {
+            println!("      image: {}", self.normalized_image().0);
+        }
+        if self.now > 55_000_000 {
+            // the fingerprint abstraction of neighbor lifetimes would no longer be sound
+            out.push(Viol::new("MACHINERY/time-horizon-exceeded", format!("now = {} us", self.now)));
+            self.tainted = true;
+        }
+    }
+
+    fn fingerprint(&self) -> u128 {
+        let (img, padding) = self.normalized_image();
+        if padding {
+            stat(O::PaddingState);
+        }
+        let tx: Vec<(usize, Who, bool)> = self.tx_model.iter().map(|e| (e.bytes.len(), e.dst, e.malformed)).collect();
+        let rx: Vec<(usize, Who)> = self.rx_model.iter().map(|e| (e.bytes.len(), e.from)).collect();
+        fp128(&(img, tx, rx, self.dev.refuse_next, self.dev.inner.rx.len(), self.pending_b, self.b_resolved, self.tainted))
+    }
+
+    fn outcome(&self) -> String {
+        format!("tx{} rx{}{}", self.tx_model.len(), self.rx_model.len(), if self.tainted { " tainted" } else { "" })
+    }
+}
+
+// ---------------------------------------------------------------------------------------
+// driver
+// ---------------------------------------------------------------------------------------
+
+/// "Unbounded": the BFS of these configurations reaches its fixpoint (empty frontier) well
+/// before this depth, i.e. ALL reachable states are explored (reported per configuration as
+/// `fixpoint: true`; the state spaces are finite because time is relative, labels are renamed
+/// and the model queues are bounded by the buffer capacities).
+const FIX: usize = 120;
+
+/// Depth bound per configuration. The sizes of the state spaces were measured (they are
+/// deterministic); where the fixpoint is out of reach the bound is the deepest complete level
+/// that keeps the whole tier inside its time budget.
+fn depth_for(tier: Tier, c: &Cfg) -> usize {
+    if let Ok(d) = std::env::var("DGRAM_DEPTH") {
+        // developer override "mix,tx,rx" (recorded in the evidence when used)
+        let p: Vec<usize> = d.split(',').filter_map(|x| x.parse().ok()).collect();
+        if p.len() == 3 {
+            return p[c.phase as usize];
+        }
+    }
+    match (tier, c.phase) {
+        (_, Phase::Rx) => FIX,
+        (Tier::Quick, Phase::Mix) => {
+            if c.slots == 1 {
+                FIX
+            } else {
+                4
+            }
+        }
+        (Tier::Quick, Phase::Tx) => match (c.slots, c.eth) {
+            (1, _) | (2, _) => FIX,
+            (_, true) => 6,
+            (_, false) => 7,
+        },
+        (Tier::Thorough, Phase::Mix) => match c.slots {
+            1 => FIX,
+            2 => 6,
+            _ => 5,
+        },
+        (Tier::Thorough, Phase::Tx) => match (c.slots, c.eth, c.k) {
+            (1, _, _) | (2, _, _) => FIX,
+            (_, false, _) => FIX,
+            (_, true, 4) => FIX,
+            (_, true, 6) => 9,
+            (_, true, _) => 8,
+        },
+    }
+}
+
+fn configs(tier: Tier) -> Vec<(Cfg, usize)> {
+    let mut v = vec![];
+    let all_rings: Vec<(usize, usize)> = [1, 2, 3].iter().flat_map(|&s| [4, 6, 8].iter().map(move |&k| (s, k))).collect();
+    for phase in [Phase::Mix, Phase::Tx, Phase::Rx] {
+        for kind in [Kind::Udp, Kind::Icmp, Kind::Raw] {
+            for v6 in [false, true] {
+                for (eth, via_b) in [(true, false), (true, true), (false, false)] {
+                    // the rx path does not depend on the route configuration
+                    if phase == Phase::Rx && via_b {
+                        continue;
+                    }
+                    for &(slots, k) in &all_rings {
+                        // quick: the diagonal of the ring dimension (every slot count and every
+                        // payload size occurs with every kind / medium / route / IP version);
+                        // thorough: the complete product
+                        if tier == Tier::Quick && ![(1, 4), (2, 6), (3, 8)].contains(&(slots, k)) {
+                            continue;
+                        }
+                        let c = Cfg { phase, kind, eth, v6, slots, k, via_b };
+                        let d = depth_for(tier, &c);
+                        v.push((c, d));
+                    }
+                }
+            }
+        }
+    }
+    v
+}
+
+pub fn run(tier: Tier) -> i32 {
+    let mut rep = Report::new("C09", tier);
+    rep.assumptions.push("reference model = two FIFO queues of (metadata, bytes); trusted".into());
+    rep.assumptions.push("frame parser/builder (dgram/frames.rs + wirecheck) written from the RFCs, independent of smoltcp::wire; trusted".into());
+    rep.assumptions.push("state merging: fingerprint = Interface::verif_digest + SocketSet debug image with (1) payload ring bytes replaced by the model queues (label renaming), (2) ipv4_id stripped (never on the wire without fragmentation), (3) instants made relative to now (past -> '-', > 3 s ahead -> 'far': only neighbor lifetimes of 60 s, histories last < 55 s); plus model queues, back-pressure counter, pending neighbor request".into());
+    rep.assumptions.push("lenient readings: icmp sockets: checksum field of sent/received ICMP messages masked (the socket re-serialises the message); raw sockets: IP header compared by version/src/dst/protocol/hop limit, payload byte-exact (header documented as re-serialised); 3-byte garbage handed to an icmp/raw socket and datagrams to a destination without route may be dropped or stay queued, but must never appear on the wire differently; a zero-length udp datagram carries no label (order among identical zero-length datagrams is not observable)".into());
+    rep.assumptions.push("close() discards queued datagrams (documented); datagram sizes stay far below the MTU (fragmentation is C12's subject)".into());
+    let lim = Limits { max_states: std::env::var("DGRAM_MAXSTATES").ok().and_then(|x| x.parse().ok()).unwrap_or(50_000_000), max_wall_s: 36000.0 };
+    let mut cfgs = configs(tier);
+    if let Ok(f) = std::env::var("DGRAM_ONLY") {
+        cfgs.retain(|(c, _)| f.split('+').all(|t| format!("{:?} ", c).contains(&format!("{} ", t))));
+    }
+    let mut per_cfg = vec![];
+    let n_cfg = cfgs.len();
+    let mut n_fix = 0u64;
+    // configurations are independent: explore them in parallel (the BFS engine itself is
+    // parallel per level; results are merged in configuration order, so the output is
+    // deterministic)
+    use rayon::prelude::*;
+    let results: Vec<(Result<Stats, String>, Vec<Found>, Vec<serde_json::Value>)> = cfgs
+        .par_iter()
+        .map(|(cfg, depth)| {
+            let mut found = vec![];
+            let mut samples = vec![];
+            let r = bfs::<DgH>("dgram", cfg, *depth, &lim, &mut found, &mut samples);
+            (r, found, samples)
+        })
+        .collect();
+    let mut deepest_sample: std::collections::BTreeMap<(Phase, Kind), (u64, serde_json::Value)> = Default::default();
+    for ((cfg, depth), (r, found, samples)) in cfgs.iter().zip(results) {
+        let name = format!("{:?}", cfg);
+        for f in found {
+            if !rep.found.iter().any(|g| g.viol.sig == f.viol.sig) {
+                rep.found.push(f);
+            }
+        }
+        match r {
+            Ok(st) => {
+                let fixpoint = st.per_level.last() == Some(&0);
+                n_fix += fixpoint as u64;
+                per_cfg.push(json!({"config": name, "depth_bound": if *depth == FIX { json!("unbounded (<= 120)") } else { json!(depth) }, "fixpoint": fixpoint, "deepest_level": st.per_level.len() - 1 - fixpoint as usize,
+                    "events": DgH::all_events(cfg).len(), "states": st.states, "transitions": st.transitions, "per_level": st.per_level, "cap": st.cap_note}));
+                if *depth == FIX && !fixpoint {
+                    rep.machinery_errors.push(format!("{}: expected to reach the BFS fixpoint within {} levels", name, FIX));
+                }
+                rep.absorb(&format!("{} d<={}", name, depth), &st);
+                // keep the deepest history of the largest configuration per (phase, kind)
+                if let Some(smp) = samples.into_iter().next() {
+                    let e = deepest_sample.entry((cfg.phase, cfg.kind)).or_insert((0, serde_json::Value::Null));
+                    if st.states > e.0 {
+                        *e = (st.states, smp);
+                    }
+                }
+            }
+            Err(e) => rep.machinery_errors.push(format!("{}: {}", name, e)),
+        }
+    }
+    for (_, (_, smp)) in deepest_sample {
+        rep.samples.push(smp);
+    }
+    // MACHINERY pseudo-violations are machinery errors, not findings
+    let (mach, real): (Vec<Found>, Vec<Found>) = std::mem::take(&mut rep.found).into_iter().partition(|f| f.viol.sig.starts_with("MACHINERY/"));
+    rep.found = real;
+    for m in mach {
+        rep.machinery_errors.push(format!("{}: {}", m.viol.sig, m.viol.detail));
+    }
+    flush_stats();
+    let mut outcomes = serde_json::Map::new();
+    let mut distinct = 0;
+    for (i, name) in O_NAMES.iter().enumerate() {
+        let n = OUT[i].load(Ordering::Relaxed);
+        if n > 0 {
+            distinct += 1;
+        }
+        outcomes.insert(name.to_string(), json!(n));
+    }
+    rep.cov("configurations", json!(n_cfg));
+    rep.cov("configurations_explored_to_fixpoint", json!(n_fix));
+    if std::env::var("DGRAM_DEPTH").is_ok() || std::env::var("DGRAM_ONLY").is_ok() || std::env::var("DGRAM_MAXSTATES").is_ok() {
+        rep.cov("developer_overrides", json!({"DGRAM_DEPTH": std::env::var("DGRAM_DEPTH").ok(), "DGRAM_ONLY": std::env::var("DGRAM_ONLY").ok(), "DGRAM_MAXSTATES": std::env::var("DGRAM_MAXSTATES").ok()}));
+    }
+    rep.cov("per_configuration", json!(per_cfg));
+    rep.cov("distinct_outcomes", json!(distinct));
+    rep.cov("oracle_evaluations_by_outcome", serde_json::Value::Object(outcomes));
+    rep.cov("rule", json!("per configuration (socket kind x medium/route x IP version x metadata slots x payload bytes): level-synchronous BFS to the stated depth over the event alphabet listed in `alphabet`; every state = event history replayed on a fresh real Interface + socket; all oracles run after every event; outcome counters are summed over all executions (history prefixes are re-executed for every successor)"));
+    rep.cov(
+        "alphabet",
+        json!({
+            "send": "size in {hdr, hdr+1, hdr+3, capacity} x destination in {A resolved, B unresolved on-link, C off-link (default route via B | no route)}; api rotates over send_slice / send / send_with(max=size+2); plus 3 malformed bytes (icmp, raw)",
+            "receive": "recv_slice(capacity+8), recv_slice(hdr+2), peek, peek_slice(hdr+2) (udp, raw)",
+            "socket": "bind(port) / bind(addr,port) / close (udp); bind(Ident) (icmp)",
+            "interface": "poll, poll_egress, +1 s, refuse next 1|2 transmit() calls",
+            "inbound": "matching endpoint, sizes hdr, hdr+1, hdr+3, capacity, capacity+1 from A/B; non-matching port/ident/protocol; each followed by poll",
+            "neighbor": "ARP reply / neighbor advertisement of B when a request is pending",
+            "drain": "lift back-pressure, answer requests, poll to quiescence, tx liveness verdict"
+        }),
+    );
+    rep.finish()
+}
+
+pub fn replay(art: &serde_json::Value) -> i32 {
+    let cfgs = art["replay"]["config"].as_str().unwrap_or("");
+    let Some(cfg) = Cfg::parse(cfgs) else {
+        eprintln!("MACHINERY ERROR: cannot parse configuration {:?}", cfgs);
+        return 2;
+    };
+    println!("configuration: {:?} (capacity {} bytes, {} slots)", cfg, cfg.cap(), cfg.slots);
+    if art["replay"]["list_events"].as_bool() == Some(true) {
+        // convenience for writing artefacts by hand: the alphabet with its choice indices
+        // (NeighReply / Refuse are filtered by `enabled()` when not applicable)
+        for (i, e) in DgH::new(&cfg).enabled().iter().enumerate() {
+            println!("  choice {:2} = {:?}", i, e.0);
+        }
+    }
+    VERBOSE.store(true, Ordering::Relaxed);
+    let r = replay_artifact::<DgH>(&cfg, art);
+    VERBOSE.store(false, Ordering::Relaxed);
+    r
 }
